@@ -62,6 +62,7 @@ static struct fault faults[MAX_FAULTS];
 static int nfaults = 0;
 static int perm_readdir = 0;
 static long sim_clock_base = 1790000000L; /* $SIM_CLOCK_BASE: where the simulated wall clock starts (seconds) */
+static int dtype_unknown = 0;      /* $SIM_DT_UNKNOWN: readdir reports d_type DT_UNKNOWN, as some file systems do */
 static char mount_pre[512];        /* "mount <rel>": that directory of the world is the root of another file system */
 static size_t mount_len = 0;
 static int stdout_dies_with_signal = 0; /* "stdout_sig 1": from the first raised signal on, writes to fd 1/2 fail with EPIPE
@@ -335,6 +336,8 @@ static void do_init(void)
     const char *plan = getenv("SIM_PLAN");
     if (!root || !trace)
         return;
+    if (getenv("SIM_DT_UNKNOWN"))
+        dtype_unknown = atoi(getenv("SIM_DT_UNKNOWN"));
     if (getenv("SIM_CLOCK_BASE"))
         sim_clock_base = atol(getenv("SIM_CLOCK_BASE"));
     snprintf(sim_root, sizeof sim_root, "%s", root);
@@ -1478,7 +1481,10 @@ static void dir_register(DIR *d, const char *rel)
                 cap *= 2;
                 b->ents = realloc(b->ents, sizeof(struct dirent64) * (size_t)cap);
             }
-            memcpy(&b->ents[b->n++], e, sizeof *e);
+            memcpy(&b->ents[b->n], e, sizeof *e);
+            if (dtype_unknown)
+                b->ents[b->n].d_type = DT_UNKNOWN;
+            b->n++;
         }
         qsort(b->ents, (size_t)b->n, sizeof(struct dirent64), dirent_cmp);
         if (perm_readdir) {
